@@ -13,6 +13,7 @@ import Driver.Nlp
 import Driver.C03
 import Driver.AtomicWrite
 import Driver.Notebook
+import Driver.CacheLayer
 
 namespace Driver
 
@@ -35,6 +36,7 @@ def dispatch (dom : String) (ops : Array String) : Array String :=
   | "c03" => C03.runCase ops
   | "atomicwrite" => AtomicWrite.runCase ops
   | "notebook" => Notebook.runCase ops
+  | "cachelayer" => CacheLayer.runCase ops
   | _ => ops.map (fun _ => "unknown-domain")
 
 end Driver
